@@ -186,6 +186,30 @@ Definition nested_known (kn : list known) (prevq : list (N * N)) (nested : list 
     | _, _ => []
     end) nested.
 
+(** the order in which the end blocker must queue what it detects, computed from the observed event list
+    alone: transaction-event triggers by the position of the FIRST event that meets their condition (then by
+    id: the listener order under one prefix), then height triggers by height, then time triggers by their
+    listener order key; ties by id *)
+Fixpoint find_idx {A} (f : A -> bool) (l : list A) (i : N) : N :=
+  match l with [] => i | x :: r => if f x then i else find_idx f r (N.succ i) end.
+
+Definition det_key (b : block) (k : known) : N * N * N :=
+  match k_event k with
+  | EvTx name _ attrs => (0, find_idx (tx_matches name attrs) (b_events b) 0, k_id k)
+  | EvHeight v => (1, v, k_id k)
+  | EvTime v => (2, Z.to_N (v mod two64), k_id k)
+  end.
+
+Definition key3_le (x y : N * N * N) : bool :=
+  let '(a1, b1, c1) := x in let '(a2, b2, c2) := y in
+  (a1 <? a2) || ((a1 =? a2) && ((b1 <? b2) || ((b1 =? b2) && (c1 <=? c2)))).
+
+Fixpoint sorted3 (l : list (N * N * N)) : bool :=
+  match l with
+  | x :: ((y :: _) as r) => key3_le x y && sorted3 r
+  | _ => true
+  end.
+
 Definition prop_block (accts : list N) (p : pstate) (b : block) (o : obs) : pstate * list string :=
   let exec_ids := map fst (ob_exec o) in
   let nex := List.length exec_ids in
@@ -234,6 +258,8 @@ Definition prop_block (accts : list N) (p : pstate) (b : block) (o : obs) : psta
                            | Some k => cond_met b (k_event k) && (mem (fst q) prev_reg_ids || mem (fst q) new_ids)
                            | None => false end) newq)
         "prop:queued without its condition being met" ++
+    tag (sorted3 (flat_map (fun q => match lookup (fst q) known' with Some k => [det_key b k] | None => [] end) newq))
+        "prop:triggers queued in another order than their conditions were met" ++
     tag (still_waiting (fun k => match k_event k with EvHeight _ => cond_met b (k_event k) | _ => false end))
         "prop:height trigger not detected although its height is reached" ++
     tag (still_waiting (fun k => match k_event k with EvTime _ => cond_met b (k_event k) | _ => false end))
